@@ -127,6 +127,10 @@ def tree_spec(draw, git=None, max_nodes=22):
             pats = [p for p in pats if "#" not in p and not p.startswith("-")]
             if pats:
                 ignore[gdir] = pats
+        # a wholly ignored directory directly below subprojects/ (the usual rule for what Meson downloads)
+        msub = sorted({"/".join(f.split("/")[:2]) for f in files if f.startswith("subprojects/") and f.count("/") >= 2})
+        if msub and draw(st.integers(0, 2)) == 0:
+            ignore.setdefault("", []).append("/" + draw(st.sampled_from(msub)) + "/")
         tracked = draw(st.lists(st.sampled_from(files), max_size=6, unique=True))
         forced = draw(st.lists(st.sampled_from(files), max_size=2, unique=True))
         submods = []
@@ -134,6 +138,7 @@ def tree_spec(draw, git=None, max_nodes=22):
                 and not any(part in (".hg", ".sl", "LICENSES", ".reuse") for part in d.split("/"))
                 and any(p.startswith(d + "/") and v[0] in ("text", "binary") for p, v in nodes.items())]
         meson = [d for d in cand if d.startswith("subprojects/")]
+        meson = [d for d in meson if ("/" + d + "/") not in ignore.get("", [])]  # an ignored submodule is a contradictory set-up
         if meson and draw(st.booleans()):
             submods.append(draw(st.sampled_from(meson)))
         elif cand and draw(st.integers(0, 2)) == 0:
